@@ -83,6 +83,17 @@ macro_rules! assert_remaining {
     };
 }
 
+/// Splits off the first `len` bytes of `buf`, returning an error instead of
+/// panicking when fewer bytes remain (the length usually comes from the wire).
+#[inline]
+pub(crate) fn split_to_checked(
+    buf: &mut bytes::Bytes,
+    len: usize,
+) -> Result<bytes::Bytes, IOError> {
+    assert_remaining!(len <= buf.len(), "`len` greater than remaining");
+    Ok(buf.split_to(len))
+}
+
 pub trait WriteExt {
     fn write_slice(&mut self, src: &[u8]);
     fn write_u8(&mut self, n: u8);
